@@ -7,7 +7,8 @@ from common import (coqchk, Rng, assumptions, coq_bytes, coq_eval, coq_make, har
 PROP = "C19"
 THEOREMS = ["C19_model_smoke", "C19_invariant_every_interleaving", "C19_no_underflow", "C19_conservation", "C19_exclusive", "C19_mut_unshared",
             "C19_frozen_bytes_constant", "C19_write_needs_mut", "C19_all_returned", "C19_blocks_only_if_empty", "C19_release_batch",
-            "C19_bucket_choice", "C19_waits_although_buffer_available_refuted", "C19_source_statement_order"]
+            "C19_bucket_choice", "C19_waits_although_buffer_available_refuted", "C19_source_statement_order",
+            "C19_all_connections_ended_all_message_buffers_back", "C19_ending_connection_returns_what_it_held"]
 PRELUDE = "From NW Require Import Base.Bytes Model.PoolTok Conf.CodecConf Conf.PoolConf.\n"
 
 
